@@ -21,6 +21,9 @@ struct Out {
 }
 
 fn scenario<C: MlsConfig>(rng: &mut Rng, mk: &dyn Fn(&Setup, &Handles, mls_rs::identity::SigningIdentity, mls_rs::crypto::SignatureSecretKey) -> mls_rs::Client<C>, out: &mut Out) {
+    use mls_rs::extension::built_in::RequiredCapabilitiesExt;
+    use mls_rs::group::{CommitEffect, ReceivedMessage, Sender};
+    use mls_rs::mls_rs_codec::MlsEncode;
     let n = rng.range(3, 5) as usize;
     let mut w: World<C> = new_world(Default::default(), "/tmp/vharness-scratch-c10");
     let (ext_id, ext_sk) = make_identity("external-sender", 1);
@@ -68,7 +71,7 @@ fn scenario<C: MlsConfig>(rng: &mut Rng, mk: &dyn Fn(&Setup, &Handles, mls_rs::i
     let ext = ExternalClient::builder()
         .crypto_provider(RustCryptoProvider::default())
         .identity_provider(BasicIdentityProvider)
-        .signer(ext_sk, ext_id)
+        .signer(ext_sk, ext_id.clone())
         .build();
     let gi = w.group(0).group_info_message_allowing_ext_commit(true).unwrap();
     let Ok(mut eg) = ext.observe_group(gi, None, None) else {
@@ -93,58 +96,234 @@ fn scenario<C: MlsConfig>(rng: &mut Rng, mk: &dyn Fn(&Setup, &Handles, mls_rs::i
     let mut allowed: Vec<(&str, MlsMessage)> = vec![];
     let victim = (1..n).find(|i| *i != updater).unwrap_or(1);
     let victim_leaf = w.group(victim).current_member_index();
+    let mut removes = false;
     if rng.chance(1, 2) {
-        if let Ok(m) = eg.propose_remove(victim_leaf, vec![]) {
-            allowed.push(("external-remove", m));
+        match eg.propose_remove(victim_leaf, vec![]) {
+            Ok(m) => {
+                allowed.push(("remove", m));
+                removes = true;
+            }
+            Err(e) => out.fails.push(format!("the external sender cannot propose a Remove: {}", err_class(&e))),
         }
     }
     let with_member_update = rng.chance(1, 2);
+    // the other allowed types are chosen by a generator of their own: the choices above (and those of the scenarios that follow
+    // this one on the same generator) stay what they were
+    let mut xr = Rng(rng.0 ^ 0x10c1_0c10_c10c_10c1);
+    // Add of an outsider's key package
+    let mut outsider = None;
+    if xr.chance(1, 2) {
+        let s = Setup::new("Z");
+        let h = handles(&s, &w.crypto_log, "/tmp/vharness-scratch-c10");
+        let (id, sk) = make_identity("Z", 1);
+        let client = mk(&s, &h, id, sk);
+        let kp = client.generate_key_package_message(Default::default(), Default::default(), None).unwrap();
+        match eg.propose_add(kp, vec![]) {
+            Ok(m) => {
+                allowed.push(("add", m));
+                outsider = Some((client, h));
+            }
+            Err(e) => out.fails.push(format!("the external sender cannot propose an Add: {}", err_class(&e))),
+        }
+    }
+    // external PSK every member holds
+    if xr.chance(1, 2) {
+        let pid = xr.bytes(8);
+        let val = xr.bytes(32);
+        for m in &w.members {
+            m.h.psk.inner.lock().unwrap().insert(ext_psk_id(&pid), psk_value(&val));
+        }
+        if let Some((_, h)) = &outsider {
+            h.psk.inner.lock().unwrap().insert(ext_psk_id(&pid), psk_value(&val));
+        }
+        match eg.propose_external_psk(ext_psk_id(&pid), vec![]) {
+            Ok(m) => allowed.push(("psk", m)),
+            Err(e) => out.fails.push(format!("the external sender cannot propose an external PSK: {}", err_class(&e))),
+        }
+    }
+    // GroupContextExtensions: the external senders stay, (empty) required capabilities come in
+    let mut new_exts: Option<ExtensionList> = None;
+    if xr.chance(1, 2) {
+        let mut l = ExtensionList::new();
+        l.set_from(ExternalSendersExt::new(vec![ext_id.clone()])).unwrap();
+        l.set_from(RequiredCapabilitiesExt::default()).unwrap();
+        match eg.propose_group_context_extensions(l.clone(), vec![]) {
+            Ok(m) => {
+                allowed.push(("gce", m));
+                new_exts = Some(l);
+            }
+            Err(e) => out.fails.push(format!("the external sender cannot propose GroupContextExtensions: {}", err_class(&e))),
+        }
+    }
     let committer = 0usize;
     // deliver: the member's own update (optionally), then the external proposals, to everybody
-    let mut msgs: Vec<(usize, MlsMessage)> = vec![];
+    let mut msgs: Vec<(usize, Option<&str>, MlsMessage)> = vec![];
     if with_member_update {
-        msgs.push((updater, upd));
+        msgs.push((updater, Some("member-update"), upd));
     }
-    for (_, m) in offenders.iter().chain(allowed.iter()) {
-        msgs.push((usize::MAX, m.clone()));
+    for (_, m) in offenders.iter() {
+        msgs.push((usize::MAX, None, m.clone()));
+    }
+    for (k, m) in allowed.iter() {
+        msgs.push((usize::MAX, Some(k), m.clone()));
     }
     for i in 0..n {
-        for (from, m) in &msgs {
+        for (from, legit, m) in &msgs {
             if *from != i {
-                let (r, _) = w.with_group(i, |g| g.process_incoming_message(m.clone()));
+                let (r, got) = w.with_group(i, |g| g.process_incoming_message(m.clone()));
                 if let Res::Panic(p) = &r {
                     out.fails.push(format!("member {i} panics while caching a proposal: {p}"));
+                }
+                match legit {
+                    Some(k) => {
+                        // a proposal of a type its sender may send: every member caches it
+                        if !matches!(got, Some(ReceivedMessage::Proposal(_))) {
+                            out.fails.push(format!("member {i} does not cache the {k} proposal {}: {}", if *from == usize::MAX { "of the external sender" } else { "of a member" }, r.s()));
+                        }
+                    }
+                    None => {
+                        out.cover.insert(format!("relayed-update-at-receipt:{}", if r.ok() { "cached" } else { "refused" }));
+                    }
                 }
             }
         }
     }
     out.cases += 1;
-    out.cover.insert(format!("offenders={}:allowed={}:member_update={}", offenders.len(), allowed.len(), with_member_update as u8));
+    out.cover.insert(format!("offenders={}:allowed={}:member_update={}", offenders.len(), allowed.len().min(1), with_member_update as u8));
+    let mut kinds: Vec<&str> = allowed.iter().map(|x| x.0).collect();
+    kinds.sort();
+    out.cover.insert(format!("external-allowed=[{}]", kinds.join(",")));
+    let mut expected: Vec<&str> = kinds.clone();
+    if with_member_update {
+        expected.push("update");
+    }
+    expected.sort();
     // the commit
     let (r, o) = w.with_group(committer, |g| g.commit(vec![]));
     match (&r, o) {
         (Res::Panic(p), _) => out.fails.push(format!("committer panics while building a commit over cached proposals [{}]: {p}", offenders.iter().map(|x| x.0).collect::<Vec<_>>().join(","))),
-        (Res::Err(e), _) => out.fails.push(format!("committer cannot commit although every offender came in by reference: {e}")),
+        (Res::Err(e), _) => out.fails.push(format!("committer cannot commit although every offender came in by reference (allowed external proposals [{}]): {e}", kinds.join(","))),
         (_, None) => {}
         (_, Some(o)) => {
             let unused = o.unused_proposals.len();
             if !offenders.is_empty() && unused < offenders.len() {
                 out.fails.push(format!("offending external proposals were not reported as unused ({unused} unused)"));
             }
-            w.with_group(committer, |g| g.apply_pending_commit());
+            // unused: exactly the relayed Update of the external sender
+            let bad_unused: Vec<String> = o.unused_proposals.iter().filter(|p| !(matches!(p.proposal, Proposal::Update(_)) && matches!(p.sender, Sender::External(_)))).map(|p| format!("{}:{:?}", proposal_kind(&p.proposal), p.sender)).collect();
+            if unused != offenders.len() || !bad_unused.is_empty() {
+                out.fails.push(format!("commit over external proposals [{}]: {unused} proposals unused ({} offenders), among them {bad_unused:?}", kinds.join(","), offenders.len()));
+            }
+            // (a member that did not send its Update to anybody still holds it: from its point of view it is unused as well)
+            let check_applied = |who: &str, own_update_unsent: bool, d: &mls_rs::group::CommitMessageDescription, fails: &mut Vec<String>| {
+                if let CommitEffect::NewEpoch(ne) = &d.effect {
+                    let mut got: Vec<&str> = ne.applied_proposals.iter().map(|p| proposal_kind(&p.proposal)).collect();
+                    got.sort();
+                    if got != expected {
+                        fails.push(format!("{who}: the commit applied {got:?}, expected {expected:?} (allowed external proposals must be applied, the relayed Update must not)"));
+                    }
+                    for p in &ne.applied_proposals {
+                        let ok = match &p.proposal {
+                            Proposal::Update(_) => matches!(p.sender, Sender::Member(_)),
+                            _ => matches!(p.sender, Sender::External(_)),
+                        };
+                        if !ok {
+                            fails.push(format!("{who}: applied {} proposal has sender {:?}", proposal_kind(&p.proposal), p.sender));
+                        }
+                    }
+                    let from_ext = ne.unused_proposals.iter().filter(|p| matches!(p.proposal, Proposal::Update(_)) && matches!(p.sender, Sender::External(_))).count();
+                    let own = ne.unused_proposals.iter().filter(|p| matches!(p.proposal, Proposal::Update(_)) && matches!(p.sender, Sender::Member(_))).count();
+                    if from_ext != offenders.len() || own != own_update_unsent as usize || ne.unused_proposals.len() != from_ext + own {
+                        fails.push(format!(
+                            "{who}: reports unused proposals [{}], expected the relayed Update{}",
+                            ne.unused_proposals.iter().map(|p| format!("{}:{:?}", proposal_kind(&p.proposal), p.sender)).collect::<Vec<_>>().join(","),
+                            if own_update_unsent { " and its own Update, which it kept to itself" } else { " only" }
+                        ));
+                    }
+                } else {
+                    fails.push(format!("{who}: the commit did not start a new epoch for it"));
+                }
+            };
+            let (r, d) = w.with_group(committer, |g| g.apply_pending_commit());
+            match d {
+                Some(d) => check_applied("committer", false, &d, &mut out.fails),
+                None => out.fails.push(format!("committer cannot apply its commit: {}", r.s())),
+            }
             for i in 0..n {
                 if i == committer || w.members[i].group.is_none() {
                     continue;
                 }
-                if !allowed.is_empty() && i == victim {
-                    continue; // removed
-                }
-                let (r, _) = w.with_group(i, |g| g.process_incoming_message(o.commit_message.clone()));
+                let (r, got) = w.with_group(i, |g| g.process_incoming_message(o.commit_message.clone()));
                 if !r.ok() {
                     out.fails.push(format!("member {i} rejects the commit built over external proposals: {}", r.s()));
+                    continue;
+                }
+                match got {
+                    Some(ReceivedMessage::Commit(d)) => {
+                        if removes && i == victim {
+                            if !matches!(d.effect, CommitEffect::Removed { .. }) {
+                                out.fails.push("the member the external sender proposed to remove does not see itself removed".into());
+                            }
+                            w.members[i].group = None;
+                        } else {
+                            check_applied(&format!("member {i}"), i == updater && !with_member_update, &d, &mut out.fails);
+                        }
+                    }
+                    _ => out.fails.push(format!("member {i}: the commit was not reported as a commit")),
                 }
             }
+            // the effects, on every remaining member
+            let ctx0 = w.group(committer).context().mls_encode_to_vec().unwrap();
+            for i in 0..n {
+                let Some(g) = w.members[i].group.as_ref() else { continue };
+                if g.context().mls_encode_to_vec().unwrap() != ctx0 {
+                    out.fails.push(format!("member {i} and the committer disagree on the group context after the commit"));
+                }
+                let ids: Vec<Vec<u8>> = g.roster().members().iter().filter_map(|m| m.signing_identity.credential.as_basic().map(|b| b.identifier.clone())).collect();
+                let victim_in = ids.contains(&w.members[victim].identity);
+                if victim_in == removes {
+                    out.fails.push(format!("member {i}: external Remove proposed = {removes}, the target is {} the roster", if victim_in { "still in" } else { "not in" }));
+                }
+                if ids.contains(&b"Z".to_vec()) != outsider.is_some() {
+                    out.fails.push(format!("member {i}: external Add proposed = {}, but the roster says otherwise", outsider.is_some()));
+                }
+                if let Some(l) = &new_exts {
+                    if g.context().extensions != *l {
+                        out.fails.push(format!("member {i}: the extensions the external sender proposed are not in force"));
+                    }
+                }
+            }
+            // the newcomer the external sender proposed joins
+            if let Some((z, _)) = &outsider {
+                let mut errs = vec![];
+                let joined = o.welcome_messages.iter().find_map(|wm| match z.join_group(None, wm, None) {
+                    Ok(x) => Some(x),
+                    Err(e) => {
+                        errs.push(err_class(&e));
+                        None
+                    }
+                });
+                match joined {
+                    Some((gz, _)) => {
+                        if gz.context().mls_encode_to_vec().unwrap() != ctx0 {
+                            out.fails.push("the member added through an external proposal holds another group context".into());
+                        }
+                    }
+                    None => out.fails.push(format!("the outsider whose key package the external sender proposed cannot join: {errs:?}")),
+                }
+            }
+            // the external sender follows the group
+            match std::panic::catch_unwind(std::panic::AssertUnwindSafe(|| eg.process_incoming_message(o.commit_message.clone()))) {
+                Ok(Ok(_)) => {
+                    if eg.group_context().mls_encode_to_vec().unwrap() != ctx0 {
+                        out.fails.push("the external sender accepted the commit but holds another group context".into());
+                    }
+                }
+                Ok(Err(e)) => out.fails.push(format!("the external sender rejects the commit over its own proposals: {}", err_class(&e))),
+                Err(_) => out.fails.push("the external sender panics on the commit over its own proposals".into()),
+            }
             out.cover.insert(format!("commit-ok:unused={unused}"));
+            out.cover.insert(format!("commit-ok:applied=[{}]", expected.join(",")));
         }
     }
     let _ = std::fs::remove_dir_all("/tmp/vharness-scratch-c10");
